@@ -1553,6 +1553,38 @@ func r24Writer(c *RuleCtx) {
 		}
 	})
 	if dropIf == nil {
+		// the test written another way (a cursor over the bitmap's iterator kept in step with the document
+		// loop): the branch under which the sentinel is stored, provided its condition is computed from
+		// the deletion bitmap
+		eachInstr(fn, func(b *ssa.BasicBlock, in ssa.Instruction) {
+			st, ok := in.(*ssa.Store)
+			if !ok || !isSentinelConst(st.Val) || dropIf != nil {
+				return
+			}
+			ia, ok := st.Addr.(*ssa.IndexAddr)
+			if !ok {
+				return
+			}
+			if _, isSl := ia.X.Type().Underlying().(*types.Slice); !isSl {
+				return
+			}
+			for x := b; x != nil; x = x.Idom() {
+				if len(x.Preds) != 1 {
+					continue
+				}
+				pb := x.Preds[0]
+				iff, ok := pb.Instrs[len(pb.Instrs)-1].(*ssa.If)
+				if !ok || len(pb.Succs) != 2 || pb.Succs[0] == pb.Succs[1] {
+					continue
+				}
+				if dependsOnBitmap(iff.Cond, 0, map[ssa.Value]bool{}) {
+					dropIf, dropBlock = iff, x
+				}
+				break
+			}
+		})
+	}
+	if dropIf == nil {
 		c.undecidedP(props, "writer/drop-test", c.fpos(fn), "the test `drop bitmap contains this document` is found in mergeStoredAndRemap", "no Contains() branch found")
 		return
 	}
@@ -1823,6 +1855,12 @@ func r17MergeFields(c *RuleCtx, mf *ssa.Function) {
 					continue
 				}
 			}
+			// "not the first segment" (`segI > 0`): the first segment is the reference itself
+			if ph, isPhiIdx := rangeIndexOf(bo.X); isPhiIdx && ph != nil && ph.Comment == "rangeindex" {
+				if k, isK := constInt64(bo.Y); isK && k == 0 && (bo.Op == token.GTR || bo.Op == token.NEQ || bo.Op == token.EQL) {
+					continue
+				}
+			}
 			if (bo.Op == token.NEQ || bo.Op == token.EQL) && fromList(bo.X) && fromList(bo.Y) {
 				if _, ok := bo.X.(*ssa.Call); ok {
 					sawLen = true
@@ -2090,4 +2128,56 @@ func ownerOnlyReleased(p *Program, f *ssa.Function, prm *ssa.Parameter, depth in
 		}
 	}
 	return true
+}
+
+// dependsOnBitmap: v is computed from a call on a roaring bitmap or on an iterator over one.
+func dependsOnBitmap(v ssa.Value, depth int, seen map[ssa.Value]bool) bool {
+	if v == nil || depth > 8 || seen[v] {
+		return false
+	}
+	seen[v] = true
+	switch x := v.(type) {
+	case *ssa.Call:
+		for _, a := range x.Call.Args {
+			t := a.Type()
+			if pt, ok := t.Underlying().(*types.Pointer); ok {
+				t = pt.Elem()
+			}
+			if n, ok := types.Unalias(t).(*types.Named); ok && n.Obj().Pkg() != nil && strings.Contains(n.Obj().Pkg().Path(), "roaring") {
+				return true
+			}
+		}
+		for _, a := range x.Call.Args {
+			if dependsOnBitmap(a, depth+1, seen) {
+				return true
+			}
+		}
+	case *ssa.BinOp:
+		return dependsOnBitmap(x.X, depth+1, seen) || dependsOnBitmap(x.Y, depth+1, seen)
+	case *ssa.UnOp:
+		if x.Op == token.MUL {
+			if cell := cellOf(x.X); cell != nil {
+				for _, st := range cellStores(cell) {
+					if dependsOnBitmap(st.Val, depth+1, seen) {
+						return true
+					}
+				}
+				return false
+			}
+		}
+		return dependsOnBitmap(x.X, depth+1, seen)
+	case *ssa.Convert:
+		return dependsOnBitmap(x.X, depth+1, seen)
+	case *ssa.ChangeType:
+		return dependsOnBitmap(x.X, depth+1, seen)
+	case *ssa.Phi:
+		for _, e := range x.Edges {
+			if dependsOnBitmap(e, depth+1, seen) {
+				return true
+			}
+		}
+	case *ssa.Extract:
+		return dependsOnBitmap(x.Tuple, depth+1, seen)
+	}
+	return false
 }
